@@ -11,8 +11,10 @@ QT = os.path.join(VERIF, 'qtmodel')
 HERE = os.path.dirname(os.path.abspath(__file__))
 SRC = 'src/base/QXmppMessage.cpp'
 SRC_STANZA = 'src/base/QXmppStanza.cpp'
+SRC_PUBSUB = 'src/base/QXmppPubSubEvent.cpp'
 MP = 'QXmppMessagePrivate'
 SP = 'QXmppStanzaPrivate'
+PE = 'QXmppPubSubEventPrivate'
 
 
 def rd(name):
@@ -51,7 +53,7 @@ CLS_SENSITIVE, CLS_PUBLIC, CLS_BOTH = 0, 1, 2
 # ------------------------------------------------------------------------------------------------- type canonicalisation
 SUBOBJECT = (r'(QXmppOutOfBandUrl|QXmppBitsOfBinaryData|QXmppJingleMessageInitiationElement|QXmppStanzaId|QXmppMixInvitation|'
              r'QXmppFallback|QXmppTrustMessageElement|QXmppMessageReaction|QXmppFileShare|QXmppFileSourcesAttachment|'
-             r'(QXmppMessage::|QXmpp::)?Reply|QXmppCallInviteElement|QXmppOmemoElement|QXmppElement|QXmppExtendedAddress|(QXmppStanza::)?Error)')
+             r'(QXmppMessage::|QXmpp::)?Reply|QXmppCallInviteElement|QXmppOmemoElement|QXmppElement|QXmppExtendedAddress|(QXmppStanza::)?Error|QXmppPubSubSubscription|QXmppDataForm)')
 CANON = [
     (re.compile(r'^(typename )?(std::)?remove_reference<(.*)>::type$'), None),          # std::move result: the argument type
     (re.compile(r'^std::optional<' + SUBOBJECT + r'>$'), 'qoptsub'),
@@ -68,6 +70,9 @@ CANON = [
     (re.compile(r'^StampType$'), 'int'),
     (re.compile(r'^QSharedDataPointer<QXmppMessagePrivate>$'), MP + '*'),
     (re.compile(r'^QSharedDataPointer<QXmppStanzaPrivate>$'), SP + '*'),
+    (re.compile(r'^QSharedDataPointer<QXmppPubSubEventPrivate>$'), PE + '*'),
+    (re.compile(r'^(QXmppPubSubEventBase::)?EventType$'), 'int'),
+    (re.compile(r'^QStringList$'), 'qlist'),
     (re.compile(r'^QSharedDataPointer<(QXmppStanzaErrorPrivate|QXmppE2eeMetadataPrivate)>$'), 'qoptsub'),   # null or a shared value
 ]
 
@@ -426,7 +431,7 @@ class L17F(L17):
 def profile():
     p = opaque_profile(
         types={
-            'QXmppMessage': 'QXmppMessage', 'QXmppStanza': 'QXmppStanza', MP: MP, SP: SP,
+            'QXmppMessage': 'QXmppMessage', 'QXmppStanza': 'QXmppStanza', MP: MP, SP: SP, PE: PE, 'QXmppPubSubEventBase': 'QXmppPubSubEventBase',
             'QXmlStreamWriter': 'qxw', 'QIODevice': 'qiodev', 'QDateTime': 'qdt', 'QByteArray': 'qba', 'QTimeZone': 'qtz',
             'QTextStream': 'qtextstream', 'QChar': 'int',
             'QXmpp::Private::DomChildElements': 'qdomkids', 'DomChildElements': 'qdomkids',
@@ -440,6 +445,11 @@ def profile():
             # ---- d-pointer
             'op->:%s*' % MP: ('arg', 0),
             'op->:%s*' % SP: ('arg', 0),
+            'op->:%s*' % PE: ('arg', 0),
+            # QXmppPubSubEventBase (the one subclass that overrides serializeExtensions): the qualified base-class call and the pure virtual
+            # serializeItems() of the item-type subclass (event stub: what an item serialiser writes is not verified here)
+            'QXmppPubSubEventBase::serializeExtensions/3': ('expr', 'QXmppMessage_serializeExtensions(&({0})->message, {1}, {2}, {3})'),
+            'QXmppPubSubEventBase::serializeItems/1': ('expr', 'pubsub_serializeItems({0}, {1})'),
             # ---- repository callees that are lowered themselves
             'QXmppMessage::hasHint/1': ('callee', 'QXmppMessage_hasHint'),
             'QXmppMessage::addHint/1': ('callee', 'QXmppMessage_addHint'),
@@ -610,17 +620,19 @@ def extract_default(src, filt, name, index, prof):
     return exprs.pop(), lw.need_enums
 
 
-def table_models(src, names, prof):
+def table_models(srcs, names, prof):
     """constant string tables (HINT_TYPES, CHAT_STATES, ...) copied entry by entry from the initialiser in the AST; lookups are
     unrolled comparisons (no loop in a model)"""
     out = []
     for name in sorted(names):
-        decls = [d for d in astx.find_decls(os.path.join(REPO, src), name, 'VarDecl', name) if d.get('inner')]
+        src = srcs[name]
+        decls = [d for d in astx.find_decls(src, name, 'VarDecl', name) if d.get('inner')]
         if len({d['id'] for d in decls}) != 1:
             raise astx.ExtractError('table %s: %d definitions' % (name, len(decls)))
         lists = [x for x in walk(decls[0]) if x.get('kind') == 'InitListExpr']
         if not lists:
             raise Unsupported('table %s has no initialiser list' % name)
+        src = os.path.relpath(src, REPO)
         il = max(lists, key=lambda x: len(x.get('inner', [])))
         ids = []
         for e in il['inner']:
@@ -699,8 +711,9 @@ def loop_specs(lw, spec, extra_assigns):
             spec.loops[num] = ('__CPROVER_assigns(%s, gh_events%s)\n'
                                '__CPROVER_loop_invariant(0 <= %s && %s <= %s)\n'
                                '__CPROVER_loop_invariant(0 <= gh_events && gh_events <= 1000000)\n'
+                               '__CPROVER_loop_invariant(__CPROVER_loop_entry(gh_events) <= gh_events)\n'
                                '__CPROVER_decreases(%s - %s)' % (idx, extra_assigns, idx, idx, cnt, cnt, idx))
-            spec.inv_labels[num] = ['inv.list_index_in_range', 'inv.event_counter_in_range']
+            spec.inv_labels[num] = ['inv.list_index_in_range', 'inv.event_counter_in_range', 'inv.event_counter_never_decreases']
     spec.first_for = for_ordinals[0] if for_ordinals else None
 
 
@@ -724,6 +737,47 @@ def callsite_modes(prof):
     return sorted(out)
 
 
+# ghost hook (DESIGN 5.8): the event counter at the moment the base-class call of the PubSub override returned
+HOOKS = [{'id': 'events_after_base_call', 'fn': 'QXmppPubSubEventBase_serializeExtensions', 'after': r'^\s*\(QXmppMessage_serializeExtensions\(&\(self\)->message',
+          'emit': 'gh_events_after_base = gh_events;', 'count': 1}]
+
+# closed-world premise of the mode contracts: which classes define serializeExtensions / an SCE-mode parseExtension
+KNOWN_DEFINERS = {'serializeExtensions': {'QXmppMessage', 'QXmppPubSubEventBase'},
+                  'parseExtension': {'QXmppMessage', 'QXmppPubSubEventBase', 'QXmppPresence'}}   # QXmppPresence::parseExtension has no SCE mode
+
+
+def override_inventory():
+    """every out-of-line definition `X::serializeExtensions(` / `X::parseExtension(` and every in-class declaration of them under
+    /repo/src (omemo is not built); a definer the unit does not know is exit 2 (the closed-world premise is gone), not a silent pass"""
+    found = {'serializeExtensions': set(), 'parseExtension': set()}
+    root = os.path.join(REPO, 'src')
+    for dp, dn, fn in os.walk(root):
+        if os.path.basename(dp) == 'omemo':
+            continue
+        for f in fn:
+            if not f.endswith(('.h', '.cpp')):
+                continue
+            text = open(os.path.join(dp, f), errors='replace').read()
+            for m in re.finditer(r'\b(\w+)::(serializeExtensions|parseExtension)\s*\([^;{]*\)\s*(const\s*)?\{', text):
+                found[m.group(2)].add(m.group(1))
+            if f.endswith('.h'):
+                cur = None
+                for line in text.splitlines():
+                    if line.lstrip().startswith(('//', '*', '/*')):
+                        continue
+                    mc = re.match(r'(?:class|struct)\s+(?:QXMPP_EXPORT\s+)?(\w+)\b[^;]*$', line)
+                    if mc:
+                        cur = mc.group(1)
+                    mm = re.search(r'\b(serializeExtensions|parseExtension)\s*\(', line)
+                    if mm and cur:
+                        found[mm.group(1)].add(cur)
+    for k, v in found.items():
+        extra = v - KNOWN_DEFINERS[k]
+        if extra:
+            raise Unsupported('%s is also defined/declared by %s: the unit covers only %s (closed-world premise of the mode contracts)' % (k, ', '.join(sorted(extra)), ', '.join(sorted(KNOWN_DEFINERS[k]))))
+    return {k: sorted(v) for k, v in found.items()}
+
+
 def prefetch(keys, jobs=6):
     """run the clang AST dumps of several (source, filter) pairs concurrently; astx caches them for the sequential code below"""
     from concurrent.futures import ThreadPoolExecutor
@@ -741,14 +795,16 @@ def prefetch(keys, jobs=6):
 
 def build(work, tier):
     prof = profile()
-    prefetch([(SRC, f) for f in ('QXmpp::operator&', 'QXmppMessage::parseExtensions', 'QXmppMessage::parse', 'QXmppMessage::hasHint', 'QXmppMessage::addHint', 'QXmppMessage::encryptionMethod',
+    prefetch([(SRC_PUBSUB, 'QXmppPubSubEventBase::serializeExtensions'), (SRC_PUBSUB, PE)] + [(SRC, f) for f in ('QXmpp::operator&', 'QXmppMessage::parseExtensions', 'QXmppMessage::parse', 'QXmppMessage::hasHint', 'QXmppMessage::addHint', 'QXmppMessage::encryptionMethod',
                                  'QXmppMessage::encryptionName', 'checkElement', 'QXmppMessage::serializeExtensions', 'QXmppMessage::parseExtension',
                                  'QXmppMessage::toXml', MP, 'SceMode')] +
              [(SRC_STANZA, f) for f in ('QXmppStanza::id', 'QXmppStanza::setExtensions', 'QXmppStanza::parse', 'QXmppStanza::to', 'QXmppStanza::from', 'QXmppStanza::lang', 'QXmppStanza::error',
-                                        'QXmppStanza::extensionsToXml', SP, 'SceMode')] + [(SRC_CLIENT, 'QXmppClient::sendSensitive')])
-    for cls, src in ((MP, SRC), (SP, SRC_STANZA)):
+                                        'QXmppStanza::extensionsToXml', SP, 'SceMode')] + [(SRC_CLIENT, 'QXmppClient::sendSensitive'), (SRC_CLIENT, 'QXmppClientPrivate'), (SRC, 'QXmppMessage::toXml')])
+    for cls, src in ((MP, SRC), (SP, SRC_STANZA), (PE, SRC_PUBSUB)):
         fields, _ = ctx.record_fields(os.path.join(REPO, src), cls, cls)
         L17.tracked[cls] = {f[0] for f in fields}
+    prof.hooks = HOOKS
+    overrides = override_inventory()
     prof.default_values = {('extensionsToXml', 1): extract_default(SRC_STANZA, 'QXmppStanza::extensionsToXml', 'extensionsToXml', 1, prof)}
     b = Builder('C17', work, prof)
     texts, specs, lws = {}, {}, {}
@@ -783,6 +839,8 @@ def build(work, tier):
     lower(SRC, 'QXmppMessage::parseExtensions', 'parseExtensions', 'QXmppMessage_parseExtensions', this='QXmppMessage', specf='parseExtensions.spec')
     lower(SRC_STANZA, 'QXmppStanza::parse', 'parse', 'QXmppStanza_parse', this='QXmppStanza', specf='stanzaparse.spec', nparams=1)
     lower(SRC, 'QXmppMessage::parse', 'parse', 'QXmppMessage_parse', this='QXmppMessage', specf='messageparse.spec', nparams=2)
+    lower(SRC_PUBSUB, 'QXmppPubSubEventBase::serializeExtensions', 'serializeExtensions', 'QXmppPubSubEventBase_serializeExtensions', this='QXmppPubSubEventBase',
+          specf='pubsub_serialize.spec')
     lower(SRC, 'QXmppMessage::toXml', 'toXml', 'QXmppMessage_toXml', this='QXmppMessage', specf='toxml.spec', nparams=2)
     # the helpers are part of the verified text (used through their bodies): keep them in the evidence, marked as such
     helpers = ['QXmppMessage_hasHint', 'QXmppMessage_addHint', 'QXmppMessage_encryptionMethod', 'QXmppMessage_encryptionName', 'checkElement',
@@ -797,15 +855,17 @@ def build(work, tier):
 
     rec_m, names_m, klass_m, unm_m = record_model(SRC, MP, L17, prof, PUBLIC_MEMBERS, BOTH_MEMBERS)
     rec_s, names_s, klass_s, unm_s = record_model(SRC_STANZA, SP, L17, prof, PUBLIC_STANZA_MEMBERS)
-    tables = set()
+    rec_e, names_e, klass_e, unm_e = record_model(SRC_PUBSUB, PE, L17, prof, {})       # no member of the event payload is public
+    tables = {}
     for lw in lws.values():
-        tables.update(lw.tables_used)
+        for t in lw.tables_used:
+            tables[t] = lw.source_files[0]
     model = b.subst(rd('model.h'))
     spec_h = rd('spec.h')
     lemma_h = rd('lemma.h')
     prefetch([(os.path.relpath(src_, REPO), g) for (src_, _), gs in b.need_globals.items() for g in gs] +
              [(os.path.relpath(src_, REPO), et if '::' in et else et.split('::')[-1]) for (src_, _), es in b.need_enums.items() for et in es] +
-             [(SRC, t) for t in tables])
+             [(os.path.relpath(src_, REPO), t) for t, src_ in tables.items()])
     seen, lines = set(), []
     for line in b.context().split('\n'):        # the same enum / namespace constant is needed by both translation units
         if line.strip() and line in seen:
@@ -813,12 +873,14 @@ def build(work, tier):
         seen.add(line)
         lines.append(line)
     ctxt = '\n'.join(lines)
-    tbl = table_models(SRC, tables, prof)
-    head = ('#include "opaque.h"\n' + prof.literal_ids.table() + ctxt + '\n' + model + rec_m + rec_s +
+    tbl = table_models(tables, tables, prof)
+    head = ('#include "opaque.h"\n' + prof.literal_ids.table() + ctxt + '\n' + model + rec_m + rec_s + rec_e +
             'typedef struct QXmppStanza { %s *d; } QXmppStanza;\ntypedef struct QXmppMessage { QXmppStanza stanza; %s *d; } QXmppMessage;\n' % (SP, MP) +
+            'typedef struct QXmppPubSubEventBase { QXmppMessage message; %s *d; } QXmppPubSubEventBase;\n' % PE +
             tbl + spec_h)
     havoc = ('g_f = nondet_int(); g_s = nondet_int(); gh_events = nondet_int(); '
-             '__CPROVER_havoc_object(gh_rd_%s); __CPROVER_havoc_object(gh_wr_%s); __CPROVER_havoc_object(gh_rd_%s); __CPROVER_havoc_object(gh_wr_%s); ' % (MP, MP, SP, SP))
+             '__CPROVER_havoc_object(gh_rd_%s); __CPROVER_havoc_object(gh_wr_%s); __CPROVER_havoc_object(gh_rd_%s); __CPROVER_havoc_object(gh_wr_%s); ' % (MP, MP, SP, SP) +
+             'g_e = nondet_int(); gh_events_after_base = nondet_int(); __CPROVER_havoc_object(gh_rd_%s); __CPROVER_havoc_object(gh_wr_%s); ' % (PE, PE))
 
     def body_of(cname):
         """a helper / callee used through its body: the lowered text without its own contract clauses"""
@@ -851,6 +913,12 @@ def build(work, tier):
     add('serializeExtensions', 'QXmppMessage_serializeExtensions', ser,
         'const QXmppMessage *self; qxw *writer; quint8 m; qstr ns; QXmppMessage_serializeExtensions(self, writer, m, ns);', 'contract', expect_loops=1,
         note='every message state (lists of any length: loop contracts), every mode, every base namespace; stated for one arbitrary member of the record')
+    # 2b. the one override of serializeExtensions in the tree: QXmppPubSubEventBase (base-class call through the verified contract)
+    pse = base_helpers + b.prototype(texts['QXmppMessage_serializeExtensions']) + texts['QXmppPubSubEventBase_serializeExtensions']
+    p = add('pubsub_serializeExtensions', 'QXmppPubSubEventBase_serializeExtensions', pse,
+            'const QXmppPubSubEventBase *self; qxw *writer; quint8 m; qstr ns; QXmppPubSubEventBase_serializeExtensions(self, writer, m, ns);', 'contract', expect_loops=1,
+            note='every event state (retract id lists of any length), every mode; QXmppMessage::serializeExtensions through its verified contract; serializeItems() of the item subclass as an event stub')
+    p.replace = ['QXmppMessage_serializeExtensions']
     # 3. parseExtension: JMI / call-invite finding split
     par = base_helpers + texts['QXmppMessage_parseExtension']
     hp = 'QXmppMessage *self; qdom e; quint8 m; QXmppMessage_parseExtension(self, e, m);'
@@ -927,6 +995,19 @@ def build(work, tier):
     p.expect_post = len(sites)
     proofs.append(p)
 
+    # 8. QXmppClient::sendSensitive: dispatch between the encrypted (ScePublic) and the plain (combined mode) send path, and the
+    #    message arm of its continuation (units/C17/client.py, own value model of the stanza object)
+    import client as client_part
+    m_enum = re.search(r'^enum \{[^}]*QXmpp_SceMode__SceAll[^}]*\};', ctxt, re.M)
+    if not m_enum:
+        raise Unsupported('enum QXmpp::SceMode not in the extracted context')
+    c_proofs, c_functions, c_dropped, c_fired, c_text = client_part.build_client(work, L17F, m_enum.group(0))
+    proofs.extend(c_proofs)
+    b.functions.extend(c_functions)
+    b.dropped.extend(c_dropped)
+    for k, v in c_fired.items():
+        b.fired[k] = b.fired.get(k, 0) + v
+
     # ---------------------------------------------------------------- mechanical structure report (explanation only)
     callee_members = {'hasHint': [MP + '::hints'], 'addHint': [MP + '::hints'], 'encryptionName': [MP + '::encryptionName', MP + '::encryptionMethod'],
                       'encryptionMethod': [MP + '::encryptionMethod']}
@@ -941,13 +1022,13 @@ def build(work, tier):
         return set(t for g in gs for t in g.split('+') if not t.startswith('only-'))
     mism = [n for n in names_m if s_ser.get(MP + '::' + n) and s_par.get(MP + '::' + n) and norm(s_ser[MP + '::' + n]) != norm(s_par[MP + '::' + n])]
 
-    alltext = model + spec_h + lemma_h + open(os.path.join(QT, 'opaque.h')).read()
+    alltext = model + spec_h + lemma_h + c_text + open(os.path.join(QT, 'opaque.h')).read()
     return {
         'proofs': proofs, 'functions': b.functions, 'dropped': b.dropped, 'fired': b.fired, 'hooks': [],
-        'assumed': ASSUMED + ['member of %s without a value model (only its taint slot exists; touching it is a lowering error): %s' % (c, ', '.join(u)) for c, u in ((MP, unm_m), (SP, unm_s)) if u],
+        'assumed': ASSUMED + client_part.ASSUMED + ['member of %s without a value model (only its taint slot exists; touching it is a lowering error): %s' % (c, ', '.join(u)) for c, u in ((MP, unm_m), (SP, unm_s)) if u],
         'assumes': scan_assumes(alltext),
-        'not_covered': NOT_COVERED,
-        'explanation': 'mode-guard structure extracted from the AST of this run (member: class from the property statement; guards of the real '
+        'not_covered': NOT_COVERED + client_part.NOT_COVERED,
+        'explanation': 'definers of serializeExtensions / parseExtension found under src/ (omemo excluded): %s. ' % json.dumps(overrides) + 'mode-guard structure extracted from the AST of this run (member: class from the property statement; guards of the real '
                        'serializeExtensions / parseExtension blocks that access it): ' + '; '.join(rows) +
                        ' || members whose serialise guard differs from their parse guard: ' + (', '.join(mism) or 'none'),
     }
@@ -968,8 +1049,8 @@ NOT_COVERED = [
     'value-level round trip (that parse(public) then parse(sensitive) restores each value): only the mode class of every member is decided here',
     'parse side: that an element handled in combined mode is handled by one of the two split modes (needs the bodies of the five static recognisers)',
     'the order of the two parse calls of the decrypt path and value-level accumulation across them (only: neither call assigns a member of the other part)',
-    'the sendSensitive continuation in QXmppClient.cpp beyond the call-site fact that it calls message->toXml(&writer, QXmpp::ScePublic); OMEMO code (not built): its use of serializeExtensions(SceSensitive) / parseExtensions(SceSensitive)',
-    'subclasses overriding serializeExtensions / parseExtension (QXmppPubSubEventBase)',
+    'OMEMO code (not built): its use of serializeExtensions(SceSensitive) / parseExtensions(SceSensitive)',
+    'QXmppPubSubEventBase::parseExtension (the parse-side override) and the item serialisers / parsers of QXmppPubSubEvent<T> (serializeItems / parseItems)',
     'Qt 6 branches; BUILD_OMEMO members (omemoElement)',
 ]
 
@@ -998,6 +1079,13 @@ def find_input(unit, p, o, lab, work):
         if rc == 1 and 'VIOLATED' in out:
             return {'inputs': {'driver': 'replay_split.cpp', 'args': ['extensions']}, 'reproduced': True, 'native_output': out[-3000:]}
         return None
+    if p.id.startswith('pubsub'):
+        rc, out = _run_native('replay_split.cpp', ['pubsub'])
+        if rc == 1 and 'VIOLATED' in out:
+            return {'inputs': {'driver': 'replay_split.cpp', 'args': ['pubsub']}, 'reproduced': True, 'native_output': out[-3000:]}
+        return None
+    if p.id.startswith(('sendSensitive', 'packet_of_nonza')):
+        return None        # needs a client with an encryption extension and a socket: no native driver in this unit
     pubs = ','.join(sorted(PUBLIC_MEMBERS))
     rc, out = _run_native('replay_fields.cpp', ['all', pubs])
     bad = re.findall(r'VIOLATED member=(\w+) class=(\w+) ([^\n]*)', out)
